@@ -621,6 +621,8 @@ def main():
     run = Run(PID, tier)
     from harness.lie import touch_all as _touch_all
     _touch_all()        # first uses of the Lie API happen BEFORE the models are derived (see harness/lie.py)
+    from harness import history as _history      # derivation histories in fresh interpreters (spec/DeriveHistory.tla)
+    _history.run_models(run, tier, ("rdd2:position_control", "rdd2:input_auto_level", "rdd2_loglinear:se23_position_control", "bezier:f_ref", "bezier:eulerB321_to_quat", "mr_ref_traj:"))
     fns = Fns()
     cover, stats = {}, {}
     if "--replay" in sys.argv:
